@@ -228,9 +228,10 @@ def generate(ctx):
     ks = ctx.pick([2, 2, 3, 3, 4], [2, 3, 3, 4, 4, 5])
     yield "bounds", dict(k=2, arcs="0", fam="arc-less")
     yield "bounds", dict(k=3, arcs="0", fam="arc-less")
-    for _ in range(ctx.pick(300, 2500)):
+    for _ in range(ctx.pick(500, 4000)):
         k = rng.choice(ks)
-        fam = rng.choice(["dense", "dense", "trigger", "trigger", "generated", "tails", "arc", "uniform-raw-degree", "uniform-raw-degree"])
+        fam = rng.choice(["dense", "dense", "trigger", "trigger", "generated", "tails", "arc", "uniform-raw-degree", "uniform-raw-degree",
+                          "sparse", "sparse", "sparse", "sparse"])
         if fam in ("dense", "trigger"):
             acc = _dense_minus(rng, k, fam == "trigger")
         elif fam == "generated":
@@ -241,6 +242,17 @@ def generate(ctx):
                 acc = _with_tails(rng, acc, k)
         elif fam == "uniform-raw-degree":
             acc = _uniform_raw_degree(rng, k)
+        elif fam == "sparse":
+            # unpruned sparse arc subsets (sources without incoming arcs, dead ends, thin cyclic cores); most fall outside
+            # the precondition and are only used for the <= 2 claim, the rest are judged
+            k = rng.choice([2, 2, 2, 3])
+            n = 4 ** k
+            acc = -np.ones((n, 4), dtype=int)
+            d = rng.choice([0.4, 0.5, 0.6, 0.7])
+            for v in range(n):
+                for j in range(4):
+                    if rng.random() < d:
+                        acc[v, j] = (v * 4 + j) % n
         else:
             acc = gens.arc_graph(rng, k, density=rng.choice([0.7, 0.85, 0.95]))
         if acc is None or not (acc >= 0).any():
@@ -302,7 +314,7 @@ def check_capacity(ctx, case):
     lo, hi = np.log2(info["rho_lo"]), np.log2(info["rho_hi"])
     e1, e2 = first_two_estimates(acc)
     trigger = reg is None and e1 == e2
-    for r in (1, ctx.rng.choice([2, 3]), ctx.rng.choice([5, 10])):
+    for r in (1, 2, ctx.rng.choice([3, 5, 10])):
         val = _cap(ctx, dsw, facc, r, where, npseed=case["npseed"] + r)
         if val is None:
             continue
@@ -364,7 +376,7 @@ def floors(agg, tier):
     c = agg["classes"]
     for name, need in (("precondition graph", 300), ("non-regular graph whose first two estimates coincide", 30),
                        ("bounds|arc-less", 2), ("bounds|any graph", 100), ("precondition graph|tails", 20),
-                       ("precondition graph|generated", 20),
+                       ("precondition graph|generated", 20), ("precondition graph|sparse", 100),
                        ("non-regular graph with a uniform raw out-degree (arcs into arc-less vertices)", 15)):
         if c.get(name, 0) < need:
             out.append("%s observed %d < %d" % (name, c.get(name, 0), need))
